@@ -7,7 +7,7 @@ def plan(ctx):
     rnd = random.Random(ctx.seed or 11)
     thorough = ctx.tier == "thorough"
     obs = []
-    shapes = [(RS, 2, 1, 1), (RS, 2, 2, 2), (ISAV, 2, 1, 1)] + ([(RS, 1, 1, 1), (RS, 1, 2, 2), (RS, 3, 1, 1), (ISAC, 2, 1, 1), (RS, 3, 2, 2)] if thorough else [])
+    shapes = [(RS, 2, 1, 1), (RS, 2, 2, 2), (ISAV, 2, 1, 1)] + ([(RS, 3, 1, 1), (ISAC, 2, 1, 1), (RS, 3, 2, 2)] if thorough else [])
     for be, k, m, hd in shapes:
         n = k + m
         unit = k * WB[be]
